@@ -57,7 +57,7 @@ func dumpUnit(st txState, tag string) string {
 func genTxProc(r *core.Rng, nstmts int) *txProc {
 	p := &txProc{Files: map[string]string{}}
 	st := txState{NextID: 1000}
-	formats := []string{"csv", "csv", "tsv", "json", "jsonl", "ltsv"}
+	formats := []string{"csv", "csv", "tsv", "json", "jsonl", "ltsv", "ltsv"}
 	nfiles := r.Range(2, 3)
 	vals := []string{"alpha", "beta", "gamma", "x", "yy", "7", "42", "3.5"}
 	for k := 0; k < nfiles; k++ {
@@ -101,7 +101,10 @@ func genTxProc(r *core.Rng, nstmts int) *txProc {
 		t := &st.Tables[r.Intn(len(st.Tables))]
 		tn := "`" + t.Name + "`"
 		second := t.Cols[1]
-		switch r.Intn(10) {
+		switch r.Intn(11) {
+		case 10:
+			// every record goes: a format without a header line then has nothing to write (COMMIT must fail or write it, not skip it)
+			return fmt.Sprintf("DELETE FROM %s;", tn)
 		case 9:
 			// names the untouched file as a target but changes no record of it
 			return []string{"UPDATE untouched SET v = 'x' WHERE id > 100000;", "DELETE FROM untouched WHERE id < 0;", "UPDATE untouched SET v = 'x' FROM untouched JOIN f1 ON untouched.id = f1.id + 900000;"}[r.Intn(3)]
@@ -183,6 +186,16 @@ func genTxProc(r *core.Rng, nstmts int) *txProc {
 			committed = st.clone()
 		default:
 			p.Units = append(p.Units, dml(false))
+		}
+	}
+	// a table in a format without a header line loses all its records shortly before the end (about every other
+	// procedure that has one): the final COMMIT then has nothing to write for it and must either write that or fail as a whole
+	if nstmts > 0 {
+		for _, t := range st.Tables {
+			if strings.HasSuffix(t.File, ".ltsv") && r.P(60) {
+				p.Units = append(p.Units, fmt.Sprintf("DELETE FROM `%s`;", t.Name))
+				break
+			}
 		}
 	}
 	p.Units = append(p.Units, dumpUnit(st, "c"))
